@@ -555,6 +555,7 @@ def variant_constraints(body):
             pk = canon_str(body, d[1])
             vmap = {v: n for v, n in d[3]}
             sw[bb] = (pk, d[2], vmap)
+    body._reach_cache["vc_adt"] = {pk: adt for (pk, adt, vmap) in sw.values()}
     state = {0: {}}
     work = deque([0])
     inq = {0}
@@ -573,6 +574,36 @@ def variant_constraints(body):
     def base_local(pk):
         m = re.match(r"_(\d+)", pk)
         return int(m.group(1)) if m else -1
+
+    # `matches!`-style booleans: a bool local all of whose definitions are `const true/false`; switching on it
+    # re-establishes the constraints that held where the taken constant was assigned
+    boolsw = {}
+    for bb in live:
+        t = body.blocks[bb]["term"]
+        if t["k"] != "switch" or bb in sw:
+            continue
+        l = op_local(t["discr"])
+        if l is None or body.locals[l] != "bool":
+            continue
+        # follow a plain copy/move chain to the multiply-defined bool
+        for _ in range(3):
+            sd = body.single_def(l)
+            if sd and sd[1] == "assign" and sd[2]["rv"]["k"] == "use" and op_local(sd[2]["rv"]["op"]) is not None:
+                l = op_local(sd[2]["rv"]["op"])
+            else:
+                break
+        ds = body.defs.get(l, [])
+        if len(ds) < 2:
+            continue
+        byval = {}
+        okb = True
+        for site, kind, payload in ds:
+            if kind != "assign" or payload["rv"]["k"] != "use" or const_int(payload["rv"]["op"]) is None:
+                okb = False
+                break
+            byval.setdefault(const_int(payload["rv"]["op"]), []).append(site.bb)
+        if okb:
+            boolsw[bb] = byval
 
     iters = 0
     while work:
@@ -601,6 +632,22 @@ def variant_constraints(body):
                 if prev is not None:
                     allowed &= prev
                 new[pk] = frozenset(allowed)
+            elif bb in boolsw:
+                byval = boolsw[bb]
+                vals = [v for v, tg in t["targets"] if tg == s]
+                listed = [v for v, tg in t["targets"]]
+                if t["otherwise"] == s:
+                    vals = vals + [v for v in byval if v not in listed]
+                cands = [state[db] for v in vals for db in byval.get(v, []) if db in state]
+                if cands:
+                    keys = set(cands[0])
+                    for c in cands[1:]:
+                        keys &= set(c)
+                    for k2 in keys:
+                        u = frozenset()
+                        for c in cands:
+                            u = u | c[k2]
+                        new[k2] = (new[k2] & u) if k2 in new else u
             old = state.get(s)
             if old is None:
                 state[s] = new
@@ -886,3 +933,172 @@ def upper_bound(F, body, op, depth=0):
             return upper_bound(F, body, rv["ops"][0], depth + 1)
         return INF
     return INF
+
+
+# --------------------------------------------------------------------------------------------------
+# G9: acyclic path enumeration with per-path constant propagation
+# --------------------------------------------------------------------------------------------------
+
+class PathResult:
+    def __init__(self, blocks, decisions, env, effects, ret):
+        self.blocks = blocks  # list of bb
+        self.decisions = decisions  # list of (atom-string, outcome-string)
+        self.env = env  # local -> python value (bool/int) for known constants
+        self.effects = effects  # list of (Site, kind, payload)
+        self.ret = ret  # value of _0 if known: bool/int/("agg", adt, variant, ...) / None
+
+    def decided(self, atom_regex):
+        return [(a, o) for a, o in self.decisions if re.search(atom_regex, a)]
+
+    def outcome(self, atom_regex):
+        d = self.decided(atom_regex)
+        return d[-1][1] if d else None
+
+    def calls(self, *regexes):
+        return [(s, p) for s, k, p in self.effects if k == "call" and callee_is(p, *regexes)]
+
+
+def describe_operand(body, op, depth=0):
+    """Line-free description of where an operand's value comes from (for condition atoms)."""
+    c = op_const(op)
+    if c is not None:
+        s = const_str(op)
+        if s is not None:
+            return f'"{s}"'
+        v = const_int(op)
+        return str(v) if v is not None else c["text"]
+    pl = op_place(op)
+    if pl is None:
+        return "?"
+    cp = canon_place(body, pl)
+    if depth < 6 and not cp["p"]:
+        sd = body.single_def(cp["l"])
+        if sd and sd[1] == "call":
+            f = op_fn(sd[2]["func"])
+            nm = re.sub(r"(::)?<[^<>]*(<[^<>]*(<[^<>]*>[^<>]*)*>[^<>]*)*>", "", f["path"]) if f else "indirect"
+            args = ",".join(describe_operand(body, a, depth + 1) for a in sd[2]["args"])
+            return f"{nm}({args})"
+        if sd and sd[1] == "assign" and sd[2]["rv"]["k"] == "bin":
+            rv = sd[2]["rv"]
+            return f"{rv['op']}({describe_operand(body, rv['a'], depth + 1)},{describe_operand(body, rv['b'], depth + 1)})"
+        if sd and sd[1] == "assign" and sd[2]["rv"]["k"] == "un":
+            rv = sd[2]["rv"]
+            return f"{rv['op']}({describe_operand(body, rv['a'], depth + 1)})"
+        if sd and sd[1] == "assign" and sd[2]["rv"]["k"] == "discr":
+            return f"discr({describe_place(body, sd[2]['rv']['pl'])})"
+        if sd and sd[1] == "assign" and sd[2]["rv"]["k"] == "ref":
+            return "&" + describe_place(body, sd[2]["rv"]["pl"])
+    return describe_place(body, cp)
+
+
+def describe_place(body, pl):
+    """`_2.*.left` -> `arg2:r.*.left` using debug names (names of parameters / upvars)."""
+    cp = canon_place(body, pl)
+    base = cp["l"]
+    name = body.debug_name(base)
+    proj = cp["p"]
+    if base == 1 and body.kind in NESTED_KINDS and proj:
+        e = proj[0]
+        if isinstance(e, dict) and "f" in e and e["o"].startswith("{upvar}"):
+            nm = body.upvar_names().get(e["f"], f"upvar{e['f']}")
+            rest = place_str({"l": 0, "p": proj[1:]})[2:]
+            return f"^{nm}{rest}"
+    label = name if name else (f"arg{base}" if 1 <= base <= body.arg_count else f"_{base}")
+    rest = place_str({"l": 0, "p": proj})[2:]
+    return f"{label}{rest}"
+
+
+def enumerate_paths(body, max_paths=512, start_bb=0, succ=None):
+    """All acyclic normal paths from entry to `return` (loops are cut at the first revisit).  Per path:
+    branch decisions as (atom, outcome) and constants known at the end."""
+    succ = succ or body.succ
+    results = []
+
+    def atom_of_switch(bb, env):
+        t = body.blocks[bb]["term"]
+        l = op_local(t["discr"])
+        if l is None:
+            return ("?", None)
+        d = local_def_desc(body, l)
+        if d[0] == "discr":
+            return (f"discr({describe_place(body, d[1])}:{d[2]})", {v: n for v, n in d[3]})
+        return (describe_operand(body, t["discr"]), None)
+
+    def walk(bb, blocks, decisions, env, effects):
+        if len(results) >= max_paths:
+            return
+        blk = body.blocks[bb]
+        env = dict(env)
+        effects = list(effects)
+        for si, st in enumerate(blk["stmts"]):
+            pl = st["pl"]
+            rv = st["rv"]
+            effects.append((Site(body, bb, si), "assign", st))
+            if pl["p"]:
+                continue
+            val = None
+            if rv["k"] == "use":
+                c = op_const(rv["op"])
+                if c is not None:
+                    iv = const_int(rv["op"])
+                    if c["ty"] == "bool" and iv is not None:
+                        val = bool(iv)
+                    elif iv is not None:
+                        val = iv
+                else:
+                    sl = op_local(rv["op"])
+                    if sl is not None and sl in env:
+                        val = env[sl]
+            elif rv["k"] == "un" and rv["op"] == "Not":
+                sl = op_local(rv["a"])
+                if sl is not None and isinstance(env.get(sl), bool):
+                    val = not env[sl]
+            elif rv["k"] == "agg" and rv.get("agg") == "adt":
+                val = ("agg", rv["adt"], rv["variant"], tuple(rv["ops"] and [describe_operand(body, o) for o in rv["ops"]] or []))
+            if val is not None:
+                env[pl["l"]] = val
+            else:
+                env.pop(pl["l"], None)
+        t = blk["term"]
+        k = t["k"]
+        if k == "return":
+            results.append(PathResult(blocks + [bb], decisions, env, effects, env.get(0)))
+            return
+        if k == "call":
+            effects.append((Site(body, bb, "T"), "call", t))
+            if not t["dest"]["p"]:
+                env.pop(t["dest"]["l"], None)
+        nxt = succ[bb]
+        if k == "switch":
+            atom, vmap = atom_of_switch(bb, env)
+            l = op_local(t["discr"])
+            known = env.get(l) if l is not None else None
+            listed = [v for v, _ in t["targets"]]
+            for v, tg in t["targets"]:
+                if tg not in nxt:
+                    continue
+                if isinstance(known, (bool, int)) and not isinstance(known, tuple) and int(known) != v:
+                    continue
+                out = vmap.get(v, str(v)) if vmap else ("false" if v == 0 and listed == [0] else str(v))
+                if tg in blocks or tg == bb:
+                    continue
+                walk(tg, blocks + [bb], decisions + [(atom, out)], env, effects)
+            tg = t["otherwise"]
+            if tg in nxt and not (isinstance(known, (bool, int)) and not isinstance(known, tuple) and int(known) in listed):
+                if vmap:
+                    rest = sorted(n for val, n in vmap.items() if val not in listed)
+                    out = "|".join(rest) if rest else "otherwise"
+                else:
+                    out = "true" if listed == [0] else "otherwise"
+                if body.blocks[tg]["term"]["k"] == "unreachable" and not body.blocks[tg]["stmts"]:
+                    return
+                if tg not in blocks and tg != bb:
+                    walk(tg, blocks + [bb], decisions + [(atom, out)], env, effects)
+            return
+        for s in nxt:
+            if s in blocks or s == bb:
+                continue
+            walk(s, blocks + [bb], decisions, env, effects)
+
+    walk(start_bb, [], [], {}, [])
+    return results
